@@ -2,6 +2,7 @@ package sim
 
 import (
 	"encoding/json"
+	"errors"
 	"fmt"
 	"sort"
 	"strings"
@@ -169,6 +170,44 @@ func (m *monState) onStep(si *StepInfo, pre, post *Snap, evs []Event) {
 		case "http":
 			if res.Route != "" {
 				m.checkAuthHTTP(si, res, pre, post, evs)
+				// a request that was let through is an ordinary operation for all the other oracles
+				if res.Op.PathStyle == 0 {
+					switch {
+					case res.Route == "POST /job/cancel" && (res.Status == 200 || res.Status == 404 || res.Status == 500):
+						c := *res
+						c.Op = Op{Kind: "cancel", Job: res.Op.Job, HTTP: true}
+						c.Job = fmt.Sprintf("j%d", res.Op.Job)
+						c.Err = map[int]string{200: "", 404: "notfound", 500: "completed"}[res.Status]
+						m.checkCancel(si, &c, pre, post)
+					case res.Route == "POST /pipelines/schedule" && res.Status != 401:
+						c := *res
+						pl := ""
+						if len(run.cur.defs.Pipelines) > 0 {
+							pl = run.cur.defs.Pipelines[0].Name
+						}
+						c.Op = Op{Kind: "schedule", Pipeline: pl, Vars: map[string]interface{}{"from": "http"}, User: "http-user", HTTP: true}
+						c.Job, c.Err = "", ""
+						if res.Status == 202 {
+							var out struct {
+								JobID string `json:"jobId"`
+							}
+							_ = json.Unmarshal([]byte(res.Body), &out)
+							if id, err := uuidFromString(out.JobID); err == nil {
+								c.Job = jobName(id)
+							}
+						} else {
+							var out struct {
+								Error string `json:"error"`
+							}
+							_ = json.Unmarshal([]byte(res.Body), &out)
+							c.Err = classify(errors.New(out.Error))
+							if res.Status == 503 {
+								c.Err = "shuttingdown"
+							}
+						}
+						m.checkSchedule(si, &c, pre, post)
+					}
+				}
 			}
 		}
 	}
@@ -229,14 +268,10 @@ func (m *monState) onStep(si *StepInfo, pre, post *Snap, evs []Event) {
 // ---------------------------------------------------------------------------
 // C05 (and the acceptance bookkeeping everything else uses)
 
-func unbuildable(p *PipeS, vars map[string]interface{}) (bool, bool) {
-	if _, bad := vars["__jobID"]; bad {
-		return true, false
-	}
-	if p != nil && p.hasCycle() {
-		return true, true
-	}
-	return false, false
+func unbuildable(p *PipeS, vars map[string]interface{}) (bad bool, cyclic bool) {
+	cyclic = p != nil && p.hasCycle()
+	_, reserved := vars["__jobID"]
+	return cyclic || reserved, cyclic
 }
 
 func (m *monState) checkSchedule(si *StepInfo, res *OpResult, pre, post *Snap) {
@@ -269,6 +304,13 @@ func (m *monState) checkSchedule(si *StepInfo, res *OpResult, pre, post *Snap) {
 		expect = "shuttingdown"
 	case def == nil:
 		expect = "undefined"
+	case m.undefinedAt[P] > 0:
+		// the pipeline was removed by a reload and defined again: jobs purged meanwhile are no longer reported but
+		// may still occupy the runner (DESIGN §13, "worth knowing"); the table cannot be evaluated on reported state
+		if res.Job != "" {
+			return
+		}
+		return
 	default:
 		running := pre.running(P)
 		waiting := pre.waiting(P)
@@ -357,6 +399,9 @@ func (m *monState) checkSchedule(si *StepInfo, res *OpResult, pre, post *Snap) {
 			}
 			continue
 		}
+		if a.BadGraph && expect == "start" && pj.Waiting() && (nj.Start != nil || nj.Canceled && nj.HasError) {
+			continue // the new job was refused at its start, which makes the runner look at its wait list
+		}
 		if pj.digest() != nj.digest() {
 			run.violate("C05", "r2", "%sjob %s changed (before %s after %s)", desc, name, brief(pj), brief(nj))
 		}
@@ -414,8 +459,20 @@ func (m *monState) checkStart(si *StepInfo, j *JobSnap, pre, post *Snap) {
 	if a == nil {
 		return
 	}
-	// C06: no earlier-accepted job of the pipeline still waiting (definition unchanged since it was accepted)
+	// C06: no earlier-accepted job of the pipeline still waiting (definition unchanged since it was accepted).
+	// The statement is about a queue that lives under one definition: as long as jobs accepted under a
+	// previous definition (e.g. with a start delay that has since been removed) are still waiting, the
+	// immediate-start rule of C05 and the order rule cannot both be demanded.
+	queueUnderOneDef := true
 	for _, o := range post.waiting(P) {
+		if oa := m.acc[o.Name]; oa == nil || !m.defUnchangedSince(P, oa.Step) {
+			queueUnderOneDef = false
+		}
+	}
+	for _, o := range post.waiting(P) {
+		if !queueUnderOneDef {
+			break
+		}
 		oa := m.acc[o.Name]
 		if oa == nil || o.Num >= j.Num {
 			continue
@@ -457,6 +514,11 @@ func (m *monState) checkEvent(si *StepInfo, e Event, pre, post *Snap) {
 			run.violate("C02", "r5", "step %d: job %s with an unbuildable graph is being executed", si.N, e.Job)
 		}
 	case "run-enter":
+		if _, purged := m.removed[e.Job]; j == nil && purged {
+			// the job was purged by a save because its pipeline is no longer defined; it is no longer reported at all
+			run.probe("task_of_purged_job_runs")
+			return
+		}
 		if j == nil || !j.Running() {
 			run.violate("C01", "r2", "step %d (%s): task %s/%s begins to run while the job is reported %s", si.N, si.Name, e.Job, e.Task, state(j))
 		}
@@ -501,6 +563,9 @@ func (m *monState) checkEvent(si *StepInfo, e Event, pre, post *Snap) {
 		}
 	case "run-exit":
 		pj := pre.Jobs[e.Job]
+		if _, purged := m.removed[e.Job]; pj == nil && purged {
+			return
+		}
 		if pj == nil || !pj.Running() {
 			run.violate("C01", "r2", "step %d (%s): task %s/%s is still running while the job is reported %s", si.N, si.Name, e.Job, e.Task, state(pj))
 		}
@@ -994,7 +1059,7 @@ func (m *monState) onEnd() {
 		if a.BadGraph {
 			// (the error text is demanded only when the job itself was refused at its start, see checkSchedule
 			// and checkStart; a job canceled or replaced while it waited carries no error)
-			if len(enters) > 0 || !j.Canceled || j.Start != nil {
+			if len(enters) > 0 || j.Start != nil || !j.Canceled && def != nil && m.undefinedAt[a.Pipeline] < a.Step {
 				run.violate("C02", "r5", "job %s with an unbuildable graph: %d tasks ran, reported %s err=%q", name, len(enters), brief(j), j.LastError)
 			}
 			continue
